@@ -36,7 +36,7 @@ RULE = (
     "event-log digest; non-trivial = >=2 generations changed the hall of fame and >=1 two-qubit move or selection step was drawn."
 )
 PROBES = ["hof_unfilled_slots", "hof_tie_replaced_by_smaller", "selection_drawn", "two_qubit_move_drawn",
-          "probabilistic_setting", "hybrid_solver", "n_hof_gt_n_pop", "dm_compiler", "starting_circuit_given"]
+          "probabilistic_setting", "hybrid_solver", "n_hof_gt_n_pop", "dm_compiler", "starting_circuit_given", "metric_log_steps_gt_1", "compiled_signed_target"]
 REAL = ["graphiq.solvers.evolutionary_solver.EvolutionarySolver.solve", "graphiq.solvers.hybrid_solvers.HybridEvolutionarySolver",
         "graphiq.solvers.solver_base (seed, update_hof, tournament_selection)", "graphiq.metrics.Infidelity", "both compilers",
         "numpy.random / random global generators (observed, not replaced)"]
@@ -78,6 +78,11 @@ def gen_case(run_seed, tier):
         "pollution": [sz.randrange(10**6) for _ in range(4)],
         # the plain evolutionary solver may be handed a starting circuit (its population then starts from copies of it)
         "given_circuit": kind == "evo" and sz.random() < 0.3,
+        # the metric's documented log_steps keyword (how often it records its value) must not change what it returns
+        "log_steps": sz.choice([1, 1, 1, 3, 4]),
+        # a target that is not a graph state: a stabilizer state compiled from a short seeded circuit (signed generators
+        # in arbitrary order); only for the plain evolutionary solver
+        "compiled_target": kind == "evo" and sz.random() < 0.25,
     }
     return case
 
@@ -109,6 +114,14 @@ def simplify(case):
         c = dict(case)
         c["given_circuit"] = False
         yield c
+    if case.get("log_steps", 1) > 1:
+        c = dict(case)
+        c["log_steps"] = 1
+        yield c
+    if case.get("compiled_target"):
+        c = dict(case)
+        c["compiled_target"] = False
+        yield c
 
 
 # ------------------------------------------------------------------------------------------------ one execution
@@ -119,11 +132,28 @@ def _mk(case):
     from graphiq.state import QuantumState
 
     g = graphs.to_nx((case["n"], [tuple(e) for e in case["edges"]]))
-    target = QuantumState(g, rep_type="g")
-    target.convert_representation("s" if case["backend"] == "stab" else "dm")
+    if case.get("compiled_target") and case["backend"] == "stab":
+        from graphiq.circuit.circuit_dag import CircuitDAG
+
+        rr = random.Random(case["seed"] * 31 + case["n"])
+        c0 = CircuitDAG(n_emitter=0, n_photon=case["n"], n_classical=0)
+        for _ in range(3 * case["n"]):
+            q = rr.randrange(case["n"])
+            k = rr.choice(["H", "P", "X", "Z", "CNOT", "H"])
+            if k == "CNOT":
+                if case["n"] < 2:
+                    continue
+                t = rr.choice([i for i in range(case["n"]) if i != q])
+                c0.add(gq.make_op(["g2", "CNOT", "p", q, "p", t]))
+            else:
+                c0.add(gq.make_op(["g1", k, "p", q]))
+        target = StabilizerCompiler().compile(c0)
+    else:
+        target = QuantumState(g, rep_type="g")
+        target.convert_representation("s" if case["backend"] == "stab" else "dm")
     comp = StabilizerCompiler() if case["backend"] == "stab" else DensityMatrixCompiler()
     comp.measurement_determinism = {0: 0, 1: 1, 2: "probabilistic"}[case["det"]]
-    return target, Infidelity(target), comp
+    return target, Infidelity(target, log_steps=case.get("log_steps", 1)), comp
 
 
 def hof_view(hof):
@@ -330,6 +360,10 @@ def run_case(case):
         ctx.probe("dm_compiler")
     if case.get("given_circuit"):
         ctx.probe("starting_circuit_given")
+    if case.get("log_steps", 1) > 1:
+        ctx.probe("metric_log_steps_gt_1")
+    if case.get("compiled_target") and case["backend"] == "stab":
+        ctx.probe("compiled_signed_target")
     pol = case["pollution"]
     e1 = execute(case, pol[0])
     ctx.fault("rng_pollution")
